@@ -13,6 +13,14 @@ accepted only when consecutive outputs tile it exactly.  Inputs for which that f
 x86-64 is decoded by GNU objdump instead (see decode_x86).  The per-ISA normalisers further down
 are written by hand from the ISA manuals (register names, operand order, aliases as *documented*);
 they are not derived from ppci's tables.
+
+Round 2 (msp430, avr, mips, m68k): `decode` associates outputs with inputs by *position* for these
+targets (see POSITIONAL below: one input per line, NOP padding, positions of llvm-mc's "invalid
+instruction encoding" warnings), survives llvm-mc dying on an input (bisection, KNOWN_CRASHERS) and
+losing the rest of a stream; `reference_decode` adds two hand-written fallback decoders where
+llvm-mc 14 has no usable table (avr_ldst_decode, vf/m68kdec.py) and MIPS32r6 / MIPS64 second opinions for
+words MIPS32r2 reserves.  The round-2 normalisers are at the end of the file; their operands are
+compared strictly (compare(..., strict=True)).
 """
 
 import re
@@ -31,7 +39,9 @@ LLVM_TARGETS = {
     "x86_64": ("x86_64", "", ["--output-asm-variant=1"]),
     "avr": ("avr", "+avr6", []),
     "msp430": ("msp430", "", []),
-    "mips": ("mipsel", "+mips32r2", []),
+    "mips": ("mipsel", "+mips32r2", []),  # ppci's mips back-end is little endian
+    "mips/r6": ("mipsel", "+mips32r6", []),  # second opinions for words MIPS32r2 reserves (see _reference_decode)
+    "mips/64": ("mips64el", "+mips64r2", []),
     "m68k": ("m68k", "", []),
 }
 
@@ -169,6 +179,8 @@ POSITIONAL = {
     "m68k": (b"\x4e\x71", 6, 2, 2),
     "avr": (b"\x00\x00", 2, 4, None),
     "mips": (b"\x00\x00\x00\x00", 1, 4, None),
+    "mips/r6": (b"\x00\x00\x00\x00", 1, 4, None),
+    "mips/64": (b"\x00\x00\x00\x00", 1, 4, None),
 }
 _AVR_RELBR = re.compile(r"^(rjmp|rcall|br[a-z]{2})\b")  # shown with the offset field as a fixup: bytes unreliable
 _WARN = re.compile(r"^<stdin>:(\d+):(\d+): warning: invalid instruction encoding", re.M)
@@ -305,19 +317,27 @@ def _decode_positional(target, data):
             for i, r in zip(keep, _decode_positional(target, [data[i] for i in keep])):
                 res[i] = r
         return res
-    try:
-        return _run_positional(target, data)
-    except _Lost as e:
-        CRASHES[target + "/stream lost after an invalid input"] = CRASHES.get(target + "/stream lost after an invalid input", 0) + 1
-        rest = data[e.index + 1 :]
-        return e.partial + [None] + (_decode_positional(target, rest) if rest else [])
-    except (_Crashed, _Inconsistent) as e:
-        if len(data) == 1:
-            key = target if isinstance(e, _Crashed) else target + "/inconsistent"
-            CRASHES[key] = CRASHES.get(key, 0) + 1
-            return [None]
-        h = len(data) // 2
-        return _decode_positional(target, data[:h]) + _decode_positional(target, data[h:])
+    done = []
+    while True:  # a loop, not recursion: a thorough m68k chunk has hundreds of stream-losing inputs
+        try:
+            return done + _run_positional(target, data)
+        except _Lost as e:
+            CRASHES[target + "/stream lost after an invalid input"] = CRASHES.get(target + "/stream lost after an invalid input", 0) + 1
+            done += e.partial + [None]
+            data = data[e.index + 1 :]
+            if not data:
+                return done
+        except (_Crashed, _Inconsistent) as e:
+            return done + _bisect_positional(target, data, e)
+
+
+def _bisect_positional(target, data, e):
+    if len(data) == 1:
+        key = target if isinstance(e, _Crashed) else target + "/inconsistent"
+        CRASHES[key] = CRASHES.get(key, 0) + 1
+        return [None]
+    h = len(data) // 2
+    return _decode_positional(target, data[:h]) + _decode_positional(target, data[h:])
 
 
 def decode(target, blobs, batch=4000):
@@ -451,6 +471,17 @@ def _reference_decode(target, blobs, tmpdir, sources):
             sources.extend("ref" if r is None else "own" for r in res)
         for i, r in zip(rest, decode(target, [blobs[i] for i in rest])):
             res[i] = r
+        return res
+    if target == "mips":
+        # what MIPS32r2 reserves is shown as release 6 reads it (lui with rs != 0 is AUI there), marked
+        # as such: the printed mnemonic then differs from what any MIPS32 core executes for these bytes
+        res = decode(target, blobs)
+        for alt, mark in (("mips/r6", _MIPS_MARKS[0]), ("mips/64", _MIPS_MARKS[1])):
+            rest = [i for i, r in enumerate(res) if r is None and blobs[i]]
+            if rest:
+                for i, r in zip(rest, decode(alt, [blobs[i] for i in rest])):
+                    if r is not None:
+                        res[i] = [(t + mark, n) for t, n in r]
         return res
     if target == "m68k":
         # llvm-mc 14 first; what it rejects goes to the own decoder (vf/m68kdec.py)
@@ -1357,6 +1388,9 @@ _MIPS_REGS["s8"] = _MIPS_REGS["$s8"] = "$30"
 _MIPS_UIMM = ("andi", "ori", "xori", "lui")
 
 
+_MIPS_MARKS = (" <mips32r6; reserved in mips32r2>", " <mips64; reserved in mips32r2>")
+
+
 def _mips_ops(rest):
     out = []
     for part in _split_commas(rest):
@@ -1410,6 +1444,8 @@ def _mips_ppci(text):
 def _mips_ref(texts):
     out = []
     for t in texts:
+        for mark in _MIPS_MARKS:
+            t = t.replace(mark, "")
         mn, rest = _split_mnemonic(t)
         ops = _mips_ops(rest)
         out.append(_mips_common(mn, ops))
